@@ -146,6 +146,10 @@ deriving Repr, DecidableEq, Inhabited
 def init (cfg : Cfg) : State :=
   { cfg := cfg, sem := Sem.new cfg.maxSize, maxSize := cfg.maxSize }
 
+/-- `PoolBuilder::build()`: timeouts configured on the pool require a runtime -/
+def buildOk (rt : Bool) (t : Timeouts) : Bool :=
+  rt || (t.wait == .none && t.create == .none && t.recycle == .none)
+
 inductive Outcome | run | ok | err | pending | panic | deadline | cancel
 deriving Repr, DecidableEq, Inhabited
 
